@@ -209,6 +209,14 @@ theorem gen_map_clear (h : Nat → Nat) (t : PTable) : HashLink.HashMap.clear h 
   rw [gen_map_clear_loop]
   cases PTable.clearLoop t.size t.begin t <;> rfl
 
+/-- The translated `HashMap::swap(other)` (two distinct objects, each with its node heap: every pointer is translated
+    together with the heap it points into, and the translator checks that afterwards all members of an object designate
+    one heap) is the model's `swap`, for EVERY two tables: everything but the object identity exchanged, the last item's
+    `next` re-anchored at the adopting object's sentinel, `_begin.item` set to the own sentinel when the adopted list is empty. -/
+theorem gen_map_swap (a b : PTable) : HashLink.HashMap.swap a b = some (PTable.swap a b) := by
+  unfold HashLink.HashMap.swap PTable.swap
+  cases hb : b.endPrev <;> cases ha : a.endPrev <;> rfl
+
 /-! ### HashSet.hpp -/
 
 theorem gen_set_find_loop (h : Nat → Nat) (t : PTable) (k hc : Nat) (fuel : Nat) (v : Option Nat) :
@@ -391,6 +399,14 @@ theorem gen_set_clear (h : Nat → Nat) (t : PTable) : HashLink.HashSet.clear h 
   rw [gen_set_clear_loop]
   cases PTable.clearLoop t.size t.begin t <;> rfl
 
+
+/-- The translated `HashSet::swap(other)` (two distinct objects, each with its node heap: every pointer is translated
+    together with the heap it points into, and the translator checks that afterwards all members of an object designate
+    one heap) is the model's `swap`, for EVERY two tables: everything but the object identity exchanged, the last item's
+    `next` re-anchored at the adopting object's sentinel, `_begin.item` set to the own sentinel when the adopted list is empty. -/
+theorem gen_set_swap (a b : PTable) : HashLink.HashSet.swap a b = some (PTable.swap a b) := by
+  unfold HashLink.HashSet.swap PTable.swap
+  cases hb : b.endPrev <;> cases ha : a.endPrev <;> rfl
 
 /-! ### PoolMap.hpp -/
 
@@ -579,5 +595,13 @@ theorem gen_pool_clear (h : Nat → Nat) (t : PTable) : HashLink.PoolMap.clear h
   rw [gen_pool_clear_loop]
   cases PTable.clearLoop t.size t.begin t <;> rfl
 
+
+/-- The translated `PoolMap::swap(other)` (two distinct objects, each with its node heap: every pointer is translated
+    together with the heap it points into, and the translator checks that afterwards all members of an object designate
+    one heap) is the model's `swap`, for EVERY two tables: everything but the object identity exchanged, the last item's
+    `next` re-anchored at the adopting object's sentinel, `_begin.item` set to the own sentinel when the adopted list is empty. -/
+theorem gen_pool_swap (a b : PTable) : HashLink.PoolMap.swap a b = some (PTable.swap a b) := by
+  unfold HashLink.PoolMap.swap PTable.swap
+  cases hb : b.endPrev <;> cases ha : a.endPrev <;> rfl
 
 end Nstd.Hash.Ptr
